@@ -425,6 +425,11 @@ pub fn run() {
           ("named-in-declared-order", format!("(function(o: {}, p: {}) [o, p])(o: {}, p: {})", other, target.text(), other_value, vt)),
           ("named-in-the-other-order", format!("(function(o: {}, p: {}) [o, p])(p: {}, o: {})", other, target.text(), vt, other_value)),
           ("positional-second-parameter", format!("(function(o: {}, p: {}) [o, p])({}, {})", other, target.text(), other_value, vt)),
+          // a parameter without a type next to the typed one, before and after it, positional and named
+          ("positional-after-an-untyped-parameter", format!("(function(o, p: {}) [o, p])({}, {})", target.text(), other_value, vt)),
+          ("positional-before-an-untyped-parameter", format!("(function(p: {}, o) [o, p])({}, {})", target.text(), vt, other_value)),
+          ("named-next-to-an-untyped-parameter", format!("(function(o, p: {}) [o, p])(p: {}, o: {})", target.text(), vt, other_value)),
+          ("positional-next-to-a-parameter-typed-Any", format!("(function(o: Any, p: {}) [o, p])({}, {})", target.text(), other_value, vt)),
         ] {
           let via = eval_value(&text);
           let want = format!("[{}, {}]", other_value, got);
